@@ -841,8 +841,31 @@ class Lower:
 
     def mcall(self, e, env):
         recv, m, args = e[1], e[2], e[3]
+        if m == "map" and len(args) == 1 and recv[0] == "mcall" and recv[2] in ("max_by", "min_by"):
+            # enumerate().max_by(|(_, a), (_, b)| a.partial_cmp(b).unwrap()).map(|(i, _)| i): the index of the LAST
+            # maximal element (Iterator::max_by) / the FIRST minimal one (Iterator::min_by), by their contracts
+            inner = recv
+            src = inner[1]
+            if src[0] == "mcall" and src[2] == "enumerate" and len(inner[3]) == 1 and inner[3][0][0] == "closure":
+                cmpc = inner[3][0]
+                proj = args[0]
+                def snd_name(p):
+                    return p[1][1][1] if p[0] == "ptuple" and len(p[1]) == 2 and p[1][1][0] == "pid" else None
+                a, b = (snd_name(cmpc[1][0]), snd_name(cmpc[1][1])) if len(cmpc[1]) == 2 else (None, None)
+                body = cmpc[2]
+                okc = (a and b and body[0] == "mcall" and body[2] == "unwrap" and body[1][0] == "mcall" and body[1][2] == "partial_cmp"
+                       and body[1][1] == ("path", [a]) and body[1][3] == [("path", [b])])
+                okp = (proj[0] == "closure" and len(proj[1]) == 1 and proj[1][0][0] == "ptuple" and len(proj[1][0][1]) == 2
+                       and proj[1][0][1][0][0] == "pid" and proj[2] == ("path", [proj[1][0][1][0][1]]))
+                base, bt = self.ex(src[1], env)
+                if okc and okp and bt == ("list", "S"):
+                    fn = "argmaxLast" if inner[2] == "max_by" else "argminFirst"
+                    return f"({fn} {base})", ("opt", "N")
+            raise Untranslatable("max_by / min_by in another form")
         # Type::assoc(...) handled in call; here receiver is a value
         s, t = self.ex(recv, env)
+        if isinstance(t, tuple) and t[0] == "opt" and m in ("is_none", "is_some") and not args:
+            return f"{s}.{'isNone' if m == 'is_none' else 'isSome'}", "B"
         if m in ("clone", "into_inner", "into", "to_owned", "as_ref"):
             if args:
                 raise Untranslatable(m)
